@@ -229,6 +229,23 @@ def run_image_pairs(ctx):
                 ops += [["seek", rng.randrange(n)], ["next"]]
         cases.append({"frames": n, "repeat": rng.choice([-1, 4, 5]), "style": rng.choice(["block", "kitty", "iterm2"]),
                       "cached": rng.choice([True, n, n + 1]), "ops": ops})
+    # non-default style arguments in the iterator's format specifier (a re-rendered stale entry must
+    # be rendered with them too), and DYNAMIC image sizes with terminal resizes between passes
+    SPECS = {"block": ["", "1.1", "<10.^5"], "kitty": ["+W", "+Lz5", "+Wc9m1", "1.1+W"],
+             "iterm2": ["+W", "+L", "+Wm1c9", "+A"]}
+    for c in cases:
+        if rng.random() < 0.5:
+            c["spec"] = rng.choice(SPECS[c["style"]])
+    for i in range(8 if ctx.quick else 60):
+        n = rng.choice([2, 2, 3])
+        style = rng.choice(["block", "kitty", "iterm2"])
+        ta, tb = rng.sample([[80, 30], [40, 12], [60, 20], [30, 30]], 2)
+        ops = []
+        for t in rng.choice([[ta, tb, ta, tb], [ta, tb, tb, ta], [ta, ta, tb, ta]]):
+            ops.append(["term", t])
+            ops += [["next"]] * n
+        cases.append({"frames": n, "repeat": rng.choice([-1, 4, 5]), "style": style, "dyn": True,
+                      "spec": rng.choice(SPECS[style] + [""]), "cached": rng.choice([True, n, n + 1]), "ops": ops})
     try:
         res = core.run_impl_parallel("impl_c09_img.py", cases)
     except Exception as e:  # noqa: BLE001
